@@ -65,6 +65,14 @@ type transUnit struct {
 	ExternVars  map[string]string    // "encoding.BinEncodingIndexDeltas" -> Lean constant (variables of other translated packages)
 	Imports     []string
 	Desugar     *desugarSpec // a Go -> Go pre-pass on one file that removes aliasing (see the end of this file)
+	// Base: this unit EXTENDS another unit of the same package (same mode, classes, externs): the functions, variables
+	// and structures of the base are analysed but not emitted again; they are referred to by their names in the base's
+	// namespace (the base's file is imported).  A key listed again in Funcs is regenerated here and shadows the base's.
+	Base *transUnit
+	// Stateful: "T.M" -> name of a function-typed parameter that is a STATE-PASSING callback (see "state-passing
+	// callbacks" below): the function becomes polymorphic in {σ : Type}, takes the state `«st» : σ` right before that
+	// parameter, the parameter has type σ → args → Res (σ × results), and the final state is returned first.
+	Stateful map[string]string
 }
 
 // an interface of another package: a type variable with a class of method signatures (DDS/Model/GoIface.lean);
@@ -317,7 +325,17 @@ type funcInfo struct {
 	ord     bool // ranges over a map (directly or through a callee): takes the iteration-order oracle `ord`
 	oracle  string          // this "function" is an oracle of the desugared source: the name of the Lean parameter that stands for it
 	oracles map[string]bool // the oracles the function needs (directly or through a callee): extra parameters, in the order of tr.oracleList
+	prior      bool        // a function of the base unit: analysed, not emitted
+	stateful   bool        // takes a state-passing callback: {σ}, `«st»` before the parameter stIdx, returns the final state first
+	stIdx      int         // index (in sig.Params()) of the state-passing parameter
+	stVar      *types.Var  // the synthetic local `«st» : σ` of a stateful function
+	stCallback bool        // a function value in state-passing form: called as `f «st» args`, returns the new state first
+	retState   []string    // what a `return` puts in front (state of a stateful function / of a state-passing literal)
+	retStateTy []string
 }
+
+// the type of the threaded state of a stateful function (rendered as the type variable σ)
+var sigmaType = types.NewNamed(types.NewTypeName(token.NoPos, nil, "σ", nil), types.NewStruct(nil, nil), nil)
 
 func (f *funcInfo) allParams() []*types.Var {
 	var ps []*types.Var
@@ -394,6 +412,9 @@ func (t *tr) fl() string {
 }
 
 func (t *tr) leanType(ty types.Type) string {
+	if ty == types.Type(sigmaType) {
+		return "σ"
+	}
 	switch u := ty.(type) {
 	case *types.Basic:
 		switch u.Kind() {
@@ -417,22 +438,7 @@ func (t *tr) leanType(ty types.Type) string {
 	case *types.Array:
 		return "List (" + t.leanType(u.Elem()) + ")"
 	case *types.Signature:
-		// a function value: pointer parameters are passed by value and returned first; always fallible
-		var ps, rs []string
-		for i := 0; i < u.Params().Len(); i++ {
-			pt := u.Params().At(i).Type()
-			ps = append(ps, t.leanType(pt))
-			if _, ok := pt.(*types.Pointer); ok {
-				rs = append(rs, t.leanType(pt))
-			}
-		}
-		for i := 0; i < u.Results().Len(); i++ {
-			rs = append(rs, t.leanType(u.Results().At(i).Type()))
-		}
-		if len(rs) == 0 {
-			rs = []string{"Unit"}
-		}
-		return "(" + strings.Join(ps, " → ") + " → Res (" + strings.Join(rs, " × ") + "))"
+		return t.sigType(u, false)
 	case *types.Map:
 		if !isInt(u.Key()) {
 			t.fail(nil, "map with a non-int key")
@@ -458,16 +464,81 @@ func (t *tr) leanType(ty types.Type) string {
 		}
 		if _, ok := u.Underlying().(*types.Struct); ok && u.Obj().Pkg() == t.pkg {
 			if t.unit.Mode == "mops" {
-				return "(" + t.unit.NS + "." + u.Obj().Name() + " F)"
+				return "(" + t.structNS() + "." + u.Obj().Name() + " F)"
 			}
 			if t.unit.StructArgs != "" {
-				return "(" + t.unit.NS + "." + u.Obj().Name() + " " + t.unit.StructArgs + ")"
+				return "(" + t.structNS() + "." + u.Obj().Name() + " " + t.unit.StructArgs + ")"
 			}
-			return t.unit.NS + "." + u.Obj().Name()
+			return t.structNS() + "." + u.Obj().Name()
 		}
 		return t.leanType(u.Underlying())
 	}
 	panic(trErr{"unsupported type " + ty.String()})
+}
+
+// a function value: pointer parameters are passed by value and returned first; always fallible.  In state-passing
+// form the state comes first, in the arguments and in the results; a function without parameters takes a Unit.
+func (t *tr) sigType(u *types.Signature, stateful bool) string {
+	var ps, rs []string
+	if stateful {
+		ps, rs = []string{"σ"}, []string{"σ"}
+	}
+	for i := 0; i < u.Params().Len(); i++ {
+		pt := u.Params().At(i).Type()
+		ps = append(ps, t.leanType(pt))
+		if _, ok := pt.(*types.Pointer); ok {
+			rs = append(rs, t.leanType(pt))
+		}
+	}
+	if len(ps) == 0 {
+		ps = []string{"Unit"}
+	}
+	for i := 0; i < u.Results().Len(); i++ {
+		rs = append(rs, t.leanType(u.Results().At(i).Type()))
+	}
+	if len(rs) == 0 {
+		rs = []string{"Unit"}
+	}
+	return "(" + strings.Join(ps, " → ") + " → Res (" + strings.Join(rs, " × ") + "))"
+}
+
+// the type of a local variable or parameter (a state-passing callback has its own function type)
+func (t *tr) varType(v *types.Var) string {
+	if pf := t.byObj[v]; pf != nil && pf.stCallback {
+		return t.sigType(pf.sig, true)
+	}
+	return t.leanType(v.Type())
+}
+
+// the namespace of the unit's structures (those of the base, for a unit that extends another)
+func (t *tr) structNS() string {
+	if t.unit.Base != nil {
+		return t.unit.Base.NS
+	}
+	return t.unit.NS
+}
+
+// binders / named arguments for the type variables of the current function (the unit's, plus σ in a stateful function)
+func (t *tr) typeParams() string {
+	s := t.unit.TypeParams
+	if t.cur != nil && t.cur.stVar != nil {
+		if s != "" {
+			s += " "
+		}
+		s += "{σ : Type}"
+	}
+	return s
+}
+
+func (t *tr) typeArgs() string {
+	s := t.unit.TypeArgs
+	if t.cur != nil && t.cur.stVar != nil {
+		if s != "" {
+			s += " "
+		}
+		s += "(σ := σ)"
+	}
+	return s
 }
 
 func isFloat(ty types.Type) bool {
@@ -1309,7 +1380,39 @@ func (t *tr) call(x *ast.CallExpr, c *ectx) string {
 		t.fail(x, "call to a function that is not translated")
 	}
 	if len(fi.mutated) > 0 {
-		t.fail(x, "call to %s (writes through a pointer) in expression position", fi.key)
+		// every argument written through is a temporary (the result of a call: nothing else can observe the writes), the
+		// callee is fallible and has one result: the new values are dropped
+		var argExprs []ast.Expr
+		if fi.recv != nil {
+			argExprs = append(argExprs, x.Fun.(*ast.SelectorExpr).X)
+		}
+		argExprs = append(argExprs, x.Args...)
+		temps := fi.res && !fi.stateful && !fi.stCallback && fi.sig.Results().Len() == 1 && c.hoists != nil && !c.inSC
+		for _, mi := range fi.mutated {
+			if mi >= len(argExprs) {
+				temps = false
+			} else if _, isCall := unparen(argExprs[mi]).(*ast.CallExpr); !isCall {
+				temps = false
+			}
+		}
+		if !temps {
+			t.fail(x, "call to %s (writes through a pointer) in expression position", fi.key)
+		}
+		n := t.tmp()
+		pat := "(" + strings.Repeat("_, ", len(fi.mutated)) + n + ")"
+		*c.hoists = append(*c.hoists, hoist{name: n, kind: "res", pat: pat, expr: t.apply(fi, args)})
+		return n
+	}
+	if fi.stateful {
+		t.fail(x, "call to %s (takes a state-passing callback) in expression position", fi.key)
+	}
+	if fi.stCallback {
+		if c.hoists == nil || c.inSC || fi.sig.Results().Len() != 1 {
+			t.fail(x, "call to the state-passing %s needs a fallible, non-short-circuit context", fi.key)
+		}
+		n := t.tmp()
+		*c.hoists = append(*c.hoists, hoist{name: n, kind: "res", pat: "(«st», " + n + ")", expr: t.apply(fi, args)})
+		return n
 	}
 	if t.unit.Mode == "mops" {
 		switch fi.key {
@@ -1387,14 +1490,215 @@ func (t *tr) callee(x *ast.CallExpr, c *ectx) (*funcInfo, []string) {
 	if fi.recv != nil {
 		args = append(args, recvArg)
 	}
-	for _, a := range x.Args {
+	if fi.stCallback {
+		if t.cur == nil || t.cur.stVar == nil {
+			t.fail(x, "state-passing callback called outside a stateful function")
+		}
+		args = append(args, "«st»")
+	}
+	for i, a := range x.Args {
+		if fi.stateful && i == fi.stIdx {
+			st, _, fn := t.stateOf(fi, x)
+			args = append(args, st, fn)
+			continue
+		}
 		v := t.expr(a, c)
 		if fi.extern && !fi.noFuel && t.rat() && isFloat(t.typeOf(a)) {
 			v = "(F64.fin " + v + ")" // an exact weight handed to code of another package that computes on float64
 		}
 		args = append(args, v)
 	}
+	if len(x.Args) == 0 && fi.noFuel && fi.sig.Params().Len() == 0 {
+		args = append(args, "()") // a function value without parameters takes a Unit
+	}
 	return fi, args
+}
+
+// ---------------------------------------------------------------- state-passing callbacks
+//
+// A function listed in the unit's `Stateful` table takes its callback `f` in state-passing form:
+//
+//	def T.M {σ : Type} (fuel : Nat) … («st» : σ) (f : σ → A → B → Res (σ × R)) … : Res (σ × mutated… × results…)
+//
+// every call `f(a, b)` in its body is `f «st» a b`, and rebinds `«st»` (a local like any other: loop state where a
+// loop calls f).  At a call of such a function:
+//   * the argument is a function LITERAL: the variables of the caller that the literal assigns (in order of first
+//     assignment; `«st»` itself when the literal calls the caller's own callback) form the state tuple; the literal
+//     becomes `fun (v1, …, vn) a b => body` where `return r` is `.ok ((v1, …, vn), r)`; after the call the variables are
+//     rebound from the returned state.  No assigned variable: σ = Unit.  The callee must not keep the closure (it is a
+//     parameter used only in calls: checked for translated callees), so Go's capture by reference and the value
+//     threading agree.
+//   * the argument is the caller's own state-passing parameter: it is passed on with the caller's `«st»`.
+func (t *tr) stateOf(fi *funcInfo, x *ast.CallExpr) (init, pat, fn string) {
+	return t.stateOf1(fi, x, true)
+}
+
+func (t *tr) stateOfPat(fi *funcInfo, x *ast.CallExpr) (init, pat, fn string) {
+	return t.stateOf1(fi, x, false)
+}
+
+func (t *tr) stateOf1(fi *funcInfo, x *ast.CallExpr, withFn bool) (init, pat, fn string) {
+	switch a := unparen(x.Args[fi.stIdx]).(type) {
+	case *ast.FuncLit:
+		vs := t.assignedOuter([]ast.Node{a.Body}, within(a))
+		// the variables threaded through the literal must not be reachable by the callee in another way
+		for i, o := range x.Args {
+			if i == fi.stIdx {
+				continue
+			}
+			if id := baseIdent(o); id != nil {
+				for _, v := range vs {
+					if t.info.Uses[id] == types.Object(v) {
+						t.fail(x, "variable %s is assigned by the callback and passed to the callee", v.Name())
+					}
+				}
+			}
+		}
+		if sel, ok := x.Fun.(*ast.SelectorExpr); ok {
+			if id := baseIdent(sel.X); id != nil {
+				for _, v := range vs {
+					if t.info.Uses[id] == types.Object(v) && !t.disjointField(sel.X, v, a) {
+						t.fail(x, "variable %s is assigned by the callback and is the receiver of the call", v.Name())
+					}
+				}
+			}
+		}
+		var names, tys []string
+		for _, v := range vs {
+			names = append(names, lname(v.Name()))
+			tys = append(tys, t.leanType(v.Type()))
+		}
+		init, pat = "()", "_"
+		lpat, sty := "_", "Unit"
+		if len(vs) > 0 {
+			init, pat, lpat = tuple(names), tuple(names), tuple(names)
+			sty = strings.Join(tys, " × ")
+			if len(vs) > 1 {
+				sty = "(" + sty + ")"
+			}
+			if len(vs) == 1 {
+				lpat = names[0]
+			}
+		}
+		if !withFn {
+			return init, pat, ""
+		}
+		return init, pat, t.stLambda(a, init, lpat, sty)
+	case *ast.Ident:
+		if pf := t.byObj[t.info.Uses[a]]; pf != nil && pf.stCallback {
+			return "«st»", "«st»", lname(a.Name)
+		}
+	}
+	t.fail(x, "the state-passing parameter of %s takes a function literal or the caller's own state-passing parameter", fi.key)
+	return
+}
+
+// the receiver of the call is the field `v.F` (directly) and the literal only touches OTHER fields of v: the callee's
+// writes (to v.F, stored back after the call) and the literal's (threaded through the state) cannot meet
+func (t *tr) disjointField(recv ast.Expr, v *types.Var, lit *ast.FuncLit) bool {
+	rs, ok := unparen(recv).(*ast.SelectorExpr)
+	if !ok {
+		return false
+	}
+	if id, ok := rs.X.(*ast.Ident); !ok || t.info.Uses[id] != types.Object(v) {
+		return false
+	}
+	rsel, ok := t.info.Selections[rs]
+	if !ok || rsel.Kind() != types.FieldVal || len(rsel.Index()) != 1 {
+		return false
+	}
+	fidx := rsel.Index()[0]
+	good := true
+	parents := map[*ast.Ident]*ast.SelectorExpr{}
+	ast.Inspect(lit.Body, func(m ast.Node) bool {
+		if se, ok := m.(*ast.SelectorExpr); ok {
+			if id, ok := se.X.(*ast.Ident); ok {
+				parents[id] = se
+			}
+		}
+		return true
+	})
+	ast.Inspect(lit.Body, func(m ast.Node) bool {
+		id, ok := m.(*ast.Ident)
+		if !ok || t.info.Uses[id] != types.Object(v) {
+			return true
+		}
+		se := parents[id]
+		if se == nil {
+			good = false
+			return false
+		}
+		sl, ok := t.info.Selections[se]
+		if !ok || len(sl.Index()) == 0 || sl.Index()[0] == fidx {
+			good = false
+		}
+		return good
+	})
+	return good
+}
+
+// a function literal in state-passing form (see above)
+func (t *tr) stLambda(x *ast.FuncLit, stVal, stPat, stTy string) string {
+	sig := t.info.Types[x].Type.(*types.Signature)
+	saved := t.cur
+	ctx := &funcInfo{key: saved.key, lean: saved.lean, decl: saved.decl, sig: sig, mutSet: map[*types.Var]bool{}, res: true,
+		stVar: saved.stVar, retState: []string{stVal}, retStateTy: []string{stTy}, oracles: saved.oracles}
+	var names []string
+	for j := 0; j < sig.Params().Len(); j++ {
+		pv := sig.Params().At(j)
+		if _, ok := pv.Type().(*types.Pointer); ok {
+			ctx.mutSet[pv] = true
+			ctx.mutated = append(ctx.mutated, j)
+		}
+		n := pv.Name()
+		if n == "" {
+			n = "_"
+		}
+		names = append(names, lname(n))
+	}
+	if len(names) == 0 {
+		names = []string{"_"}
+	}
+	ast.Inspect(x.Body, func(m ast.Node) bool {
+		if l, ok := m.(*ast.FuncLit); ok && l != x {
+			t.fail(l, "function literal inside a state-passing function literal")
+		}
+		return true
+	})
+	t.cur = ctx
+	defer func() { t.cur = saved }()
+	sc := &sctx{monad: "res"}
+	end := tuple(append([]string{stVal}, func() []string {
+		var vs []string
+		for _, mi := range ctx.mutated {
+			vs = append(vs, lname(sig.Params().At(mi).Name()))
+		}
+		return vs
+	}()...))
+	if sig.Results().Len() > 0 {
+		end = "default_unreachable"
+	}
+	body := t.stmts(x.Body.List, sc, t.ret(end, sc))
+	if strings.Contains(body, "default_unreachable") {
+		t.fail(x, "function literal may fall off its end")
+	}
+	for i := sig.Results().Len() - 1; i >= 0; i-- {
+		rv := sig.Results().At(i)
+		if rv.Name() == "" || rv.Name() == "_" {
+			continue
+		}
+		used := false
+		ast.Inspect(x.Body, func(m ast.Node) bool {
+			if id, ok := m.(*ast.Ident); ok && t.info.Uses[id] == types.Object(rv) {
+				used = true
+			}
+			return !used
+		})
+		if used {
+			body = "let " + lname(rv.Name()) + " : " + t.leanType(rv.Type()) + " := " + t.zero(x, rv.Type()) + "\n" + body
+		}
+	}
+	return "(fun " + stPat + " " + strings.Join(names, " ") + " =>\n" + body + ")"
 }
 
 // a method promoted through embedded fields: the Lean projection path to the value it is called on
@@ -1437,8 +1741,12 @@ func (t *tr) registerExterns() {
 			}
 			sig := fo.Type().(*types.Signature)
 			if fo.Pkg() == t.pkg {
-				// only methods of an interface of this package that the unit declares as a class
+				// only methods of an interface of this package that the unit declares as a class, and plain functions of
+				// this package that the unit declares as generated elsewhere (ExternFuncs["pkg.F"])
 				isIface := false
+				if _, ok := t.unit.ExternFuncs[t.pkg.Name()+"."+fo.Name()]; ok && sig.Recv() == nil {
+					isIface = true
+				}
 				if sig.Recv() != nil {
 					if nm, ok := sig.Recv().Type().(*types.Named); ok {
 						if _, ok := t.unit.Ifaces[t.pkg.Name()+"."+nm.Obj().Name()]; ok {
@@ -1819,6 +2127,13 @@ func (t *tr) callStmt(x *ast.CallExpr, lhs []ast.Expr, define bool, sc *sctx, k 
 		lhs ast.Expr
 		tmp string
 	}
+	if fi.stCallback {
+		pats = append(pats, "«st»")
+	}
+	if fi.stateful {
+		_, sp, _ := t.stateOfPat(fi, x)
+		pats = append(pats, sp)
+	}
 	for _, mi := range fi.mutated {
 		n := argVarName(argExprs[mi])
 		if n == "" {
@@ -1990,23 +2305,31 @@ func (t *tr) forEachAsRange(x *ast.CallExpr) *ast.RangeStmt {
 	if len(names) != 2 || n == 0 {
 		t.fail(x, "unsupported ForEach callback")
 	}
-	last, ok := lit.Body.List[n-1].(*ast.ReturnStmt)
-	if !ok || len(last.Results) != 1 {
-		t.fail(x, "unsupported ForEach callback (must end with `return false`)")
-	}
-	if id, ok := last.Results[0].(*ast.Ident); !ok || id.Name != "false" {
-		t.fail(x, "unsupported ForEach callback (must end with `return false`)")
-	}
-	body := &ast.BlockStmt{Lbrace: lit.Body.Lbrace, List: lit.Body.List[:n-1], Rbrace: lit.Body.Rbrace}
-	early := false
-	ast.Inspect(body, func(m ast.Node) bool {
-		if _, ok := m.(*ast.ReturnStmt); ok {
-			early = true
+	simple := false
+	if last, ok := lit.Body.List[n-1].(*ast.ReturnStmt); ok && len(last.Results) == 1 {
+		if id, ok := last.Results[0].(*ast.Ident); ok && id.Name == "false" {
+			simple = true
+			ast.Inspect(&ast.BlockStmt{List: lit.Body.List[:n-1]}, func(m ast.Node) bool {
+				if _, ok := m.(*ast.ReturnStmt); ok {
+					simple = false
+				}
+				return simple
+			})
 		}
-		return !early
-	})
-	if early {
-		t.fail(x, "ForEach callback with an early return")
+	}
+	var body *ast.BlockStmt
+	if simple {
+		body = &ast.BlockStmt{Lbrace: lit.Body.Lbrace, List: lit.Body.List[:n-1], Rbrace: lit.Body.Rbrace}
+	} else {
+		// the general form: `return e` is `if e { break } else { continue }` (the enumeration stops when the callback
+		// returns true); the literal must not name its result and must return on every path
+		if lit.Type.Results == nil || len(lit.Type.Results.List) != 1 || len(lit.Type.Results.List[0].Names) != 0 {
+			t.fail(x, "unsupported ForEach callback (named result with early returns)")
+		}
+		if _, ok := lit.Body.List[n-1].(*ast.ReturnStmt); !ok {
+			t.fail(x, "unsupported ForEach callback (must end with a return)")
+		}
+		body = &ast.BlockStmt{Lbrace: lit.Body.Lbrace, List: t.returnsAsJumps(lit.Body.List), Rbrace: lit.Body.Rbrace}
 	}
 	rs := &ast.RangeStmt{For: lit.Pos(), Key: names[0], Value: names[1], Tok: token.DEFINE, X: sel.X, Body: body}
 	if t.forEachRange == nil {
@@ -2014,6 +2337,51 @@ func (t *tr) forEachAsRange(x *ast.CallExpr) *ast.RangeStmt {
 	}
 	t.forEachRange[rs] = is.Class
 	return rs
+}
+
+// the body of a ForEach callback as a loop body: `return e` => `if e { break } else { continue }`
+func (t *tr) returnsAsJumps(list []ast.Stmt) []ast.Stmt {
+	var out []ast.Stmt
+	for _, st := range list {
+		switch x := st.(type) {
+		case *ast.ReturnStmt:
+			if len(x.Results) != 1 {
+				t.fail(x, "unsupported return in a ForEach callback")
+			}
+			brk := &ast.BranchStmt{TokPos: x.Pos(), Tok: token.BREAK}
+			cont := &ast.BranchStmt{TokPos: x.Pos(), Tok: token.CONTINUE}
+			if id, ok := x.Results[0].(*ast.Ident); ok && (id.Name == "false" || id.Name == "true") {
+				if _, isConst := t.info.Uses[id].(*types.Const); isConst {
+					if id.Name == "true" {
+						out = append(out, brk)
+					} else {
+						out = append(out, cont)
+					}
+					continue
+				}
+			}
+			out = append(out, &ast.IfStmt{If: x.Pos(), Cond: x.Results[0], Body: &ast.BlockStmt{Lbrace: x.Pos(), List: []ast.Stmt{brk}, Rbrace: x.End()},
+				Else: &ast.BlockStmt{Lbrace: x.Pos(), List: []ast.Stmt{cont}, Rbrace: x.End()}})
+		case *ast.BlockStmt:
+			out = append(out, &ast.BlockStmt{Lbrace: x.Lbrace, List: t.returnsAsJumps(x.List), Rbrace: x.Rbrace})
+		case *ast.IfStmt:
+			c := *x
+			c.Body = &ast.BlockStmt{Lbrace: x.Body.Lbrace, List: t.returnsAsJumps(x.Body.List), Rbrace: x.Body.Rbrace}
+			if x.Else != nil {
+				c.Else = t.returnsAsJumps([]ast.Stmt{x.Else})[0]
+			}
+			out = append(out, &c)
+		default:
+			ast.Inspect(st, func(m ast.Node) bool {
+				if r, ok := m.(*ast.ReturnStmt); ok {
+					t.fail(r, "return inside a loop or switch of a ForEach callback")
+				}
+				return true
+			})
+			out = append(out, st)
+		}
+	}
+	return out
 }
 
 // `copy(dst, src)` as a statement.  `copy(x[a:], x[b:c])` on one slice is a memmove inside it
@@ -2184,6 +2552,21 @@ func (t *tr) assignedOuter(nodes []ast.Node, declaredInside func(types.Object) b
 					for _, mi := range fi.mutated {
 						if mi < len(argExprs) {
 							add(argExprs[mi])
+						}
+					}
+					// a call of the state-passing callback (or passing it on) rebinds the state `«st»`
+					passesOn := false
+					if fi.stateful && fi.stIdx < len(s.Args) {
+						if id, ok := unparen(s.Args[fi.stIdx]).(*ast.Ident); ok {
+							if pf := t.byObj[t.info.Uses[id]]; pf != nil && pf.stCallback {
+								passesOn = true
+							}
+						}
+					}
+					if (fi.stCallback || passesOn) && t.cur != nil && t.cur.stVar != nil {
+						if v := t.cur.stVar; !declaredInside(v) && !seen[v] {
+							seen[v] = true
+							out = append(out, v)
 						}
 					}
 				}
@@ -2361,8 +2744,15 @@ func (t *tr) stmt(s ast.Stmt, sc *sctx, kf func() string) string {
 	case *ast.ReturnStmt:
 		c, hs := t.newE(sc)
 		var vals []string
+		vals = append(vals, t.cur.retState...)
 		for _, mi := range t.cur.mutated {
 			vals = append(vals, lname(t.cur.allParams()[mi].Name()))
+		}
+		if len(x.Results) == 0 && t.cur.sig.Results().Len() > 0 {
+			// a bare `return` with named results
+			for i := 0; i < t.cur.sig.Results().Len(); i++ {
+				vals = append(vals, lname(t.cur.sig.Results().At(i).Name()))
+			}
 		}
 		if len(x.Results) == 1 {
 			// `return f(args)` where f is translated and writes through a pointer, is fallible, or
@@ -2376,7 +2766,7 @@ func (t *tr) stmt(s ast.Stmt, sc *sctx, kf func() string) string {
 					case *ast.SelectorExpr:
 						obj = t.info.Uses[f.Sel]
 					}
-					if fi := t.byObj[obj]; fi != nil && (len(fi.mutated) > 0 || fi.sig.Results().Len() > 1) {
+					if fi := t.byObj[obj]; fi != nil && (len(fi.mutated) > 0 || fi.sig.Results().Len() > 1 || fi.stateful || fi.stCallback) {
 						var lhs []ast.Expr
 						var names []string
 						for i := 0; i < fi.sig.Results().Len(); i++ {
@@ -2587,8 +2977,11 @@ func (t *tr) ret(v string, sc *sctx) string {
 func (t *tr) paramType(fi *funcInfo, p *types.Var) string {
 	if m, ok := t.unit.Specialise[fi.key]; ok {
 		if conc, ok := m[p.Name()]; ok {
-			return t.unit.NS + "." + conc
+			return t.structNS() + "." + conc
 		}
+	}
+	if t.byObj[p] != nil && t.byObj[p].stCallback {
+		return t.sigType(t.byObj[p].sig, true)
 	}
 	return t.leanType(p.Type())
 }
@@ -2605,7 +2998,11 @@ func (t *tr) resultType(fi *funcInfo, i int) string {
 					return false
 				}
 				if r, ok := m.(*ast.ReturnStmt); ok && i < len(r.Results) {
-					ty := t.leanType(t.typeOf(r.Results[i]))
+					rty := t.typeOf(r.Results[i])
+					if tup, isTup := rty.(*types.Tuple); isTup && len(r.Results) == 1 && i < tup.Len() {
+						rty = tup.At(i).Type() // `return g(…)` with a multi-value g
+					}
+					ty := t.leanType(rty)
 					if conc != "" && conc != ty {
 						t.fail(r, "returns of different concrete types for an interface result")
 					}
@@ -2623,6 +3020,7 @@ func (t *tr) resultType(fi *funcInfo, i int) string {
 
 func (t *tr) retType() string {
 	var tys []string
+	tys = append(tys, t.cur.retStateTy...)
 	for _, mi := range t.cur.mutated {
 		tys = append(tys, t.paramType(t.cur, t.cur.allParams()[mi]))
 	}
@@ -2654,9 +3052,14 @@ func (t *tr) rangeStmt(x *ast.RangeStmt, sc *sctx, k string) string {
 		}
 	}
 	var elemType string
+	feConv := false // exact weights: a weight enumerated by a store of the class (float64) enters the exact envelope
 	if isForEach {
 		isMap = true // same shape as a map range: (key, value) pairs
 		elemType = "Int × " + t.fl()
+		if t.rat() {
+			elemType = "Int × F64"
+			feConv = true
+		}
 	} else if isMap {
 		elemType = "Int × " + t.leanType(mt.Elem())
 		// the loop may read, update or delete the entry of the current key only (iteration is over a snapshot)
@@ -2694,6 +3097,10 @@ func (t *tr) rangeStmt(x *ast.RangeStmt, sc *sctx, k string) string {
 				}
 				seen[v] = true
 				free = append(free, v)
+				if pf := t.byObj[v]; pf != nil && pf.stCallback && t.cur.stVar != nil && !seen[t.cur.stVar] {
+					seen[t.cur.stVar] = true
+					free = append(free, t.cur.stVar)
+				}
 			}
 		}
 		return true
@@ -2721,17 +3128,20 @@ func (t *tr) rangeStmt(x *ast.RangeStmt, sc *sctx, k string) string {
 	}
 	inner := &sctx{monad: "loop", brk: ".done " + stTuple, cont: hole + tail}
 	body := t.stmts(x.Body.List, inner, hole+tail)
+	if feConv && val != "_" {
+		body = "GoSem.optL (GoSem.ratOfF64 " + val + ") (fun " + val + " =>\n" + body + ")"
+	}
 	rec := name
-	if t.unit.TypeArgs != "" {
-		rec += " " + t.unit.TypeArgs
+	if t.typeArgs() != "" {
+		rec += " " + t.typeArgs()
 	}
 	var sig strings.Builder
 	sig.WriteString("def " + name)
 	if t.unit.Mode == "mops" {
 		sig.WriteString(" {F : Type} [MOps F]")
 	}
-	if t.unit.TypeParams != "" {
-		sig.WriteString(" " + t.unit.TypeParams)
+	if t.typeParams() != "" {
+		sig.WriteString(" " + t.typeParams())
 	}
 	if strings.Contains(body, " fuel") {
 		// fuel is not consumed by a range loop (structural recursion); it is handed to the fallible callees
@@ -2751,7 +3161,7 @@ func (t *tr) rangeStmt(x *ast.RangeStmt, sc *sctx, k string) string {
 	for _, v := range free {
 		if !isState[v] {
 			rec += " " + lname(v.Name())
-			sig.WriteString(" (" + lname(v.Name()) + " : " + t.leanType(v.Type()) + ")")
+			sig.WriteString(" (" + lname(v.Name()) + " : " + t.varType(v) + ")")
 		}
 	}
 	body = strings.ReplaceAll(body, hole, rec)
@@ -2849,6 +3259,10 @@ func (t *tr) forStmt(x *ast.ForStmt, sc *sctx, k string) string {
 					}
 					seen[v] = true
 					free = append(free, v)
+					if pf := t.byObj[v]; pf != nil && pf.stCallback && t.cur.stVar != nil && !seen[t.cur.stVar] {
+						seen[t.cur.stVar] = true
+						free = append(free, t.cur.stVar)
+					}
 				}
 			}
 			return true
@@ -2889,8 +3303,8 @@ func (t *tr) forStmt(x *ast.ForStmt, sc *sctx, k string) string {
 	stType := strings.Join(stTypes, " × ")
 	recHole := fmt.Sprintf("«REC%d»", t.nLoop) // the loop function applied to its oracles, known once the body is translated
 	rec := recHole
-	if t.unit.TypeArgs != "" {
-		rec += " " + t.unit.TypeArgs
+	if t.typeArgs() != "" {
+		rec += " " + t.typeArgs()
 	}
 	for _, v := range ro {
 		rec += " " + lname(v.Name())
@@ -2926,15 +3340,15 @@ func (t *tr) forStmt(x *ast.ForStmt, sc *sctx, k string) string {
 	if t.unit.Mode == "mops" {
 		sig.WriteString(" {F : Type} [MOps F]")
 	}
-	if t.unit.TypeParams != "" {
-		sig.WriteString(" " + t.unit.TypeParams)
+	if t.typeParams() != "" {
+		sig.WriteString(" " + t.typeParams())
 	}
 	if strings.Contains(body, " ord") {
 		t.fail(x, "a for loop whose body ranges over a map (the order oracle is not threaded through for loops)")
 	}
 	sig.WriteString(oracleSig)
 	for _, v := range ro {
-		sig.WriteString(" (" + lname(v.Name()) + " : " + t.leanType(v.Type()) + ")")
+		sig.WriteString(" (" + lname(v.Name()) + " : " + t.varType(v) + ")")
 	}
 	sig.WriteString(" : Nat")
 	for _, ty := range stTypes {
@@ -3125,6 +3539,11 @@ func (t *tr) analyseRes() {
 					if callee := t.byObj[obj]; callee != nil && callee.res {
 						r = true
 					}
+					if sel, ok := e.Fun.(*ast.SelectorExpr); ok && sel.Sel.Name == "ForEach" && len(e.Args) == 1 {
+						if _, isLit := e.Args[0].(*ast.FuncLit); isLit {
+							r = true // a loop over the bins a store enumerates
+						}
+					}
 					if obj != nil && obj.Pkg() != nil && obj.Pkg().Path() == "encoding/binary" {
 						r = true
 					}
@@ -3275,6 +3694,7 @@ func (t *tr) emitFunc(fi *funcInfo) {
 	}
 	// implicit return at the end of a function without results
 	var vals []string
+	vals = append(vals, fi.retState...)
 	for _, mi := range fi.mutated {
 		vals = append(vals, lname(fi.allParams()[mi].Name()))
 	}
@@ -3289,6 +3709,23 @@ func (t *tr) emitFunc(fi *funcInfo) {
 	if strings.Contains(body, "default_unreachable") {
 		t.fail(fi.decl, "function %s may fall off its end", fi.key)
 	}
+	// named results that the body mentions: declared with their zero values
+	for i := fi.sig.Results().Len() - 1; i >= 0; i-- {
+		rv := fi.sig.Results().At(i)
+		if rv.Name() == "" || rv.Name() == "_" {
+			continue
+		}
+		used := false
+		ast.Inspect(fi.decl.Body, func(m ast.Node) bool {
+			if id, ok := m.(*ast.Ident); ok && t.info.Uses[id] == types.Object(rv) {
+				used = true
+			}
+			return !used
+		})
+		if used {
+			body = "let " + lname(rv.Name()) + " : " + t.leanType(rv.Type()) + " := " + t.zero(fi.decl, rv.Type()) + "\n" + body
+		}
+	}
 	var sig strings.Builder
 	p := t.fset.Position(fi.decl.Pos())
 	fmt.Fprintf(&sig, "/-- `%s` (%s:%d) -/\n", fi.key, filepath.Base(p.Filename), p.Line)
@@ -3296,8 +3733,8 @@ func (t *tr) emitFunc(fi *funcInfo) {
 	if t.unit.Mode == "mops" {
 		sig.WriteString(" {F : Type} [MOps F]")
 	}
-	if t.unit.TypeParams != "" {
-		sig.WriteString(" " + t.unit.TypeParams)
+	if t.typeParams() != "" {
+		sig.WriteString(" " + t.typeParams())
 	}
 	if fi.res {
 		sig.WriteString(" (fuel : Nat)")
@@ -3311,6 +3748,9 @@ func (t *tr) emitFunc(fi *funcInfo) {
 		}
 	}
 	for _, p := range fi.allParams() {
+		if fi.stateful && p == fi.sig.Params().At(fi.stIdx) {
+			sig.WriteString(" («st» : σ)")
+		}
 		sig.WriteString(" (" + lname(p.Name()) + " : " + t.paramType(fi, p) + ")")
 	}
 	rt := t.retType()
@@ -3407,7 +3847,20 @@ func translateUnit(repo string, u transUnit) (text string, errMsg string) {
 			}
 		}
 	}
+	own := map[string]bool{}
 	for _, key := range u.Funcs {
+		own[key] = true
+	}
+	var allKeys []string
+	if u.Base != nil {
+		for _, key := range u.Base.Funcs {
+			if !own[key] {
+				allKeys = append(allKeys, key)
+			}
+		}
+	}
+	allKeys = append(allKeys, u.Funcs...)
+	for _, key := range allKeys {
 		fd := decls[key]
 		if fd == nil {
 			panic(trErr{"function " + key + " not found in " + u.Dir})
@@ -3419,6 +3872,25 @@ func translateUnit(repo string, u transUnit) (text string, errMsg string) {
 			lean = "go" + strings.ToUpper(key[:1]) + key[1:] // not to shadow Lean's own min / max
 		}
 		fi := &funcInfo{key: key, lean: lean, decl: fd, sig: sig, recv: sig.Recv(), mutSet: map[*types.Var]bool{}}
+		if !own[key] {
+			fi.prior = true
+			fi.lean = u.Base.NS + "." + lean
+		}
+		if pn, ok := u.Stateful[key]; ok && own[key] {
+			fi.stIdx = -1
+			for i := 0; i < sig.Params().Len(); i++ {
+				if sig.Params().At(i).Name() == pn {
+					fi.stIdx = i
+				}
+			}
+			if fi.stIdx < 0 {
+				panic(trErr{"function " + key + " has no parameter " + pn})
+			}
+			fi.stateful = true
+			fi.res = true
+			fi.stVar = types.NewVar(fd.Pos(), t.pkg, "«st»", sigmaType)
+			fi.retState, fi.retStateTy = []string{"«st»"}, []string{"σ"}
+		}
 		t.funcs[key] = fi
 		t.byObj[obj] = fi
 	}
@@ -3426,18 +3898,28 @@ func translateUnit(repo string, u transUnit) (text string, errMsg string) {
 	// their own (no captured variables); function-typed parameters: callable values
 	t.lits = map[*ast.FuncLit]*funcInfo{}
 	t.litsOf = map[string][]string{}
-	for _, key := range u.Funcs {
+	for _, key := range allKeys {
 		fi := t.funcs[key]
 		n := 0
 		ast.Inspect(fi.decl.Body, func(m ast.Node) bool {
 			call, ok := m.(*ast.CallExpr)
-			if !ok {
+			if !ok || fi.prior {
 				return true
 			}
-			for _, a := range call.Args {
+			for ai, a := range call.Args {
 				lit, ok := a.(*ast.FuncLit)
 				if !ok {
 					continue
+				}
+				var cobj types.Object
+				switch f := call.Fun.(type) {
+				case *ast.Ident:
+					cobj = t.info.Uses[f]
+				case *ast.SelectorExpr:
+					cobj = t.info.Uses[f.Sel]
+				}
+				if cf := t.byObj[cobj]; cf != nil && cf.stateful && cf.stIdx == ai {
+					continue // translated in state-passing form at the call
 				}
 				if id, ok := call.Fun.(*ast.SelectorExpr); ok {
 					if pk, ok := id.X.(*ast.Ident); ok {
@@ -3474,8 +3956,9 @@ func translateUnit(repo string, u transUnit) (text string, errMsg string) {
 		// function-typed parameters
 		for i := 0; i < fi.sig.Params().Len(); i++ {
 			pv := fi.sig.Params().At(i)
-			if psig, ok := pv.Type().(*types.Signature); ok {
+			if psig, ok := pv.Type().Underlying().(*types.Signature); ok {
 				pfi := &funcInfo{key: pv.Name(), lean: lname(pv.Name()), sig: psig, mutSet: map[*types.Var]bool{}, res: true, noFuel: true, extern: true}
+				pfi.stCallback = fi.stateful && fi.stIdx == i
 				for j := 0; j < psig.Params().Len(); j++ {
 					if _, ok := psig.Params().At(j).Type().(*types.Pointer); ok {
 						pfi.mutSet[psig.Params().At(j)] = true
@@ -3511,12 +3994,24 @@ func translateUnit(repo string, u transUnit) (text string, errMsg string) {
 			}
 		}
 	}
+	var allVars []string
+	if u.Base != nil {
+		for _, name := range u.Base.Vars {
+			p, ok := pvs[name]
+			if !ok {
+				panic(trErr{"package variable " + name + " not found in " + u.Dir})
+			}
+			t.vars[p.obj] = u.Base.NS + "." + lname(name)
+			allVars = append(allVars, name)
+		}
+	}
 	for _, name := range u.Vars {
 		p, ok := pvs[name]
 		if !ok {
 			panic(trErr{"package variable " + name + " not found in " + u.Dir})
 		}
 		t.vars[p.obj] = lname(name)
+		allVars = append(allVars, name)
 	}
 	t.registerExterns()
 	t.registerOracles()
@@ -3536,7 +4031,7 @@ func translateUnit(repo string, u transUnit) (text string, errMsg string) {
 	// fallibility: a variable initialised by a call to a fallible function is fallible; iterate
 	for i := 0; i < 4; i++ {
 		t.analyseRes()
-		for _, name := range u.Vars {
+		for _, name := range allVars {
 			p := pvs[name]
 			if call, ok := p.init.(*ast.CallExpr); ok {
 				if id, ok := call.Fun.(*ast.Ident); ok {
@@ -3558,10 +4053,15 @@ func translateUnit(repo string, u transUnit) (text string, errMsg string) {
 	for _, im := range u.Imports {
 		t.out.WriteString("import " + im + "\n")
 	}
+	if u.Base != nil {
+		t.out.WriteString("import DDS.Generated." + u.Base.File + "\n")
+	}
 	t.out.WriteString("\n")
 	t.out.WriteString("set_option linter.unusedVariables false\n\n")
 	fmt.Fprintf(&t.out, "namespace %s\nopen DDS DDS.GoSem\n\n", u.NS)
-	t.emitStructs()
+	if u.Base == nil {
+		t.emitStructs()
+	}
 	// emit variables and functions in dependency order: the listed order of Funcs, with each variable
 	// emitted right after the functions its initialiser needs (variables are listed in order)
 	emittedVar := map[string]bool{}
@@ -3585,8 +4085,12 @@ func translateUnit(repo string, u transUnit) (text string, errMsg string) {
 		})
 		return
 	}
+	ownVar := map[string]bool{}
+	for _, v := range u.Vars {
+		ownVar[v] = true
+	}
 	emitVar = func(name string) {
-		if emittedVar[name] {
+		if emittedVar[name] || !ownVar[name] {
 			return
 		}
 		emittedVar[name] = true
@@ -3596,7 +4100,7 @@ func translateUnit(repo string, u transUnit) (text string, errMsg string) {
 			emitVar(v)
 		}
 		for _, f := range fns {
-			if t.funcs[f] != nil {
+			if t.funcs[f] != nil && !t.funcs[f].prior {
 				emitFn(f)
 			}
 		}
@@ -3629,7 +4133,7 @@ func translateUnit(repo string, u transUnit) (text string, errMsg string) {
 			emitVar(v)
 		}
 		for _, f := range fns {
-			if f != key && t.funcs[f] != nil {
+			if f != key && t.funcs[f] != nil && !t.funcs[f].prior {
 				emitFn(f)
 			}
 		}
@@ -3653,7 +4157,11 @@ func translateUnit(repo string, u transUnit) (text string, errMsg string) {
 // compile error, so that the dependent proofs fail and the check reports the broken tie.
 func genTrans(repo, outDir string) int {
 	bad := 0
+	only := os.Getenv("HX_TRANS_ONLY") // development aid: comma-separated file names of the units to regenerate
 	for _, u := range transUnits {
+		if only != "" && !strings.Contains(","+only+",", ","+u.File+",") {
+			continue
+		}
 		text, errMsg := translateUnit(repo, u)
 		if u.Desugar != nil && lastDesugared != "" {
 			dp := filepath.Join(outDir, u.Desugar.File[:len(u.Desugar.File)-len(".go")]+".desugared.go.txt")
@@ -4301,6 +4809,11 @@ func (t *tr) desugarFile(f *ast.File, filename string) *ast.File {
 	for _, k := range t.unit.Funcs {
 		want[k] = true
 	}
+	if t.unit.Base != nil {
+		for _, k := range t.unit.Base.Funcs {
+			want[k] = true
+		}
+	}
 	f.Comments, f.Doc = nil, nil
 	ast.Inspect(f, func(m ast.Node) bool {
 		switch x := m.(type) {
@@ -4795,4 +5308,85 @@ var paginatedUnit = transUnit{Dir: "ddsketch/store", File: "CodePaginated", NS: 
 
 func init() {
 	transUnits = append(transUnits, paginatedUnit)
+}
+
+// ---------------------------------------------------------------- units that extend the ones above
+
+func extend(base *transUnit, file, ns string, funcs ...string) transUnit {
+	u := *base
+	u.Base, u.File, u.NS, u.Funcs, u.Vars = base, file, ns, funcs, nil
+	return u
+}
+
+// the iteration methods in state-passing form (the callback threads a state σ), and the thin wrappers of the dense stores
+var denseIterUnit = func() transUnit {
+	u := extend(&denseUnit, "CodeDenseIter", "DDS.Gen.DenseIter", "NewBin", "DenseStore.ForEach")
+	u.Stateful = map[string]string{"DenseStore.ForEach": "f"}
+	return u
+}()
+
+var sparseIterUnit = func() transUnit {
+	u := extend(&sparseUnit, "CodeSparseIter", "DDS.Gen.SparseIter", "SparseStore.ForEach")
+	u.Stateful = map[string]string{"SparseStore.ForEach": "f"}
+	return u
+}()
+
+var paginatedIterUnit = func() transUnit {
+	u := extend(&paginatedUnit, "CodePaginatedIter", "DDS.Gen.PaginatedIter", "BufferedPaginatedStore.ForEach")
+	u.Stateful = map[string]string{"BufferedPaginatedStore.ForEach": "f"}
+	return u
+}()
+
+// the sketch level: iteration in state-passing form, the constructors / decoders that take a store provider, accessors
+var sketchIterUnit = func() transUnit {
+	u := extend(&sketchUnit, "CodeSketchIter", "DDS.Gen.SketchIter",
+		"DDSketch.ForEach", "DDSketch.GetSum", "DDSketchWithExactSummaryStatistics.ForEach",
+		"DDSketch.GetPositiveValueStore", "DDSketch.GetNegativeValueStore",
+		"DDSketchWithExactSummaryStatistics.GetPositiveValueStore", "DDSketchWithExactSummaryStatistics.GetNegativeValueStore",
+		"NewDDSketchFromStoreProvider", "NewDDSketchWithExactSummaryStatistics", "DecodeDDSketch",
+		"DDSketchWithExactSummaryStatistics.ChangeMapping",
+		"DDSketch.decodeAndMergeWith", "DDSketchWithExactSummaryStatistics.DecodeAndMergeWith",
+		"DecodeDDSketchWithExactSummaryStatistics")
+	u.ExternFuncs = mergeExterns(sketchUnit.ExternFuncs, map[string]externFn{
+		"encoding.DecodeFloat64LE": {Lean: "DDS.Gen.Encoding.DecodeFloat64LE", Res: true, MutParams: []int{0}}})
+	u.Stateful = map[string]string{"DDSketch.ForEach": "f", "DDSketchWithExactSummaryStatistics.ForEach": "f",
+		"DDSketch.decodeAndMergeWith": "fallbackDecode"}
+	return u
+}()
+
+// `T.DecodeAndMergeWith` of the dense, collapsing and sparse stores: the generic decoder of CodeStoreDecode applied to
+// the receiver as a `Store`, i.e. through whatever StoreI instance the receiver's type is given
+var denseDecodeUnit = func() transUnit {
+	u := extend(&denseUnit, "CodeDenseDecode", "DDS.Gen.DenseDecode", "DenseStore.DecodeAndMergeWith",
+		"CollapsingLowestDenseStore.DecodeAndMergeWith", "CollapsingHighestDenseStore.DecodeAndMergeWith")
+	u.TypeParams = "[StoreI DDS.Gen.Dense.DenseStore] [StoreI DDS.Gen.Dense.CollapsingLowestDenseStore] [StoreI DDS.Gen.Dense.CollapsingHighestDenseStore]"
+	u.Imports = append(append([]string{}, denseUnit.Imports...), "DDS.Generated.CodeStoreDecode")
+	u.ExternFuncs = mergeExterns(denseUnit.ExternFuncs, map[string]externFn{
+		"store.DecodeAndMergeWith": {Lean: "DDS.Gen.StoreDecode.DecodeAndMergeWith", Res: true, MutParams: []int{0, 1}}})
+	return u
+}()
+
+// the sparse store's `MergeWith` (any store: a loop over the bins the argument enumerates) and `DecodeAndMergeWith`
+var sparseMergeUnit = func() transUnit {
+	u := extend(&sparseUnit, "CodeSparseMerge", "DDS.Gen.SparseMerge", "SparseStore.MergeWith")
+	u.TypeParams = "{S : Type} [StoreI S]"
+	u.TypeArgs = "(S := S)"
+	u.Imports = append(append([]string{}, sparseUnit.Imports...), "DDS.Model.GoIface")
+	u.Ifaces = map[string]ifaceSpec{"store.Store": storeDecodeUnit.Ifaces["store.Store"]}
+	return u
+}()
+
+var sparseDecodeUnit = func() transUnit {
+	u := extend(&sparseUnit, "CodeSparseDecode", "DDS.Gen.SparseDecode", "SparseStore.DecodeAndMergeWith")
+	u.TypeParams = "[StoreI DDS.Gen.Sparse.SparseStore]"
+	u.Imports = append(append([]string{}, sparseUnit.Imports...), "DDS.Generated.CodeStoreDecode")
+	u.ExternFuncs = mergeExterns(sparseUnit.ExternFuncs, map[string]externFn{
+		"store.DecodeAndMergeWith": {Lean: "DDS.Gen.StoreDecode.DecodeAndMergeWith", Res: true, MutParams: []int{0, 1}}})
+	return u
+}()
+
+var mappingCtorUnit = extend(&transUnits[3], "CodeMappingCtor", "DDS.Gen.MappingCtor", "NewDefaultMapping")
+
+func init() {
+	transUnits = append(transUnits, denseIterUnit, sparseIterUnit, paginatedIterUnit, sketchIterUnit, denseDecodeUnit, sparseMergeUnit, sparseDecodeUnit, mappingCtorUnit)
 }
